@@ -583,7 +583,8 @@ package eval
 //@   requires [parser] (PARSER $p)
 //@   ensures [node-or-error] (= (= $ret1 ENil) (not (= $ret0 0)))
 //@   ensures [operator-node] (=> (and (not (= $ret0 0)) (not (= (fld (fld $ret0 node) flag) 5))) (let ((nd (fld $ret0 node)))
-//@        (and (not (= nd 0)) (fresh $ret0) (fresh nd) (= (fld nd flag) 3) (= (fld nd value) (V_string (fld $car val))) (= (fld $ret0 children) $children)
+//@        (and (not (= nd 0)) (fresh $ret0) (fresh nd) (= (fld nd flag) 3) (= (fld nd value) (V_string (fld $car val))) (= (len (fld $ret0 children)) (len $children))
+//@             (forall ((k Int)) (! (=> (and (<= 0 k) (< k (len $children))) (= (idx (fld $ret0 children) k) (idx $children k))) :pattern ((idx (fld $ret0 children) k))))
 //@             (= (fld nd operator) (ite (mapin (global builtinOperators) (fld $car val)) (mapget (global builtinOperators) (fld $car val)) (mapget (fld (fld $p conf) OperatorMap) (fld $car val)))))))
 //@   ensures [if-node] (=> (and (not (= $ret0 0)) (= (fld (fld $ret0 node) flag) 5)) (let ((nd (fld $ret0 node)))
 //@        (and (not (= nd 0)) (fresh $ret0) (fresh nd) (= (fld $car val) "if") (= (fld nd value) (V_keyword "if")) (= (fld nd operator) (fnid parser.buildKeywordNode.operator)))))
